@@ -95,6 +95,8 @@ TRANSFORM_OPS = ["smooth33", "smooth35", "interp_fd", "interp_like", "rotate45",
 RULE_PART_OPS = ["ptm4", "ptm5", "bbox"]
 WATERSHED_OPS = ["ptm1", "ptm2", "ptm3", "ptm1_smooth"]
 ALL_OPS = STAT_OPS + TRANSFORM_OPS + RULE_PART_OPS + WATERSHED_OPS
+# iterative least-squares fits (results compared at 1e-4: float32 outputs of an optimiser) and the dispersion helpers
+FIT_OPS = ["fit_jonswap", "fit_gaussian", "celerity", "wavelen"]
 
 
 def call(da, op, ds_accessor=False):
